@@ -20,7 +20,7 @@ from ..tok import S
 from ..gen import graphs as G
 
 PID = "C12"
-COQ_HEADER = "From Coq Require Import List NArith ZArith.\nImport ListNotations.\nFrom SK Require Import lib.Tok lib.LGraph model.C12_Model model.C12_State.\n"
+COQ_HEADER = "From Coq Require Import List NArith ZArith.\nImport ListNotations.\nFrom SK Require Import lib.Tok lib.LGraph model.C12_Model model.C12_Trace model.C12_State.\n"
 SHARD = 250
 IMPL_TIMEOUT = 1500
 COQ_TIMEOUT = 1500
@@ -60,7 +60,7 @@ TESTED_NOT_PROVED = ["prune_automorphisms=True: WHICH mapping represents a host 
                      "derived views of a matcher object (mappings, num_mappings, mapping_direction, iteration, repr, repeated and re-ordered "
                      "get_mappings reads, reads after the caller edited earlier results): checked by the adapter against the stored result "
                      "after every step of every history"]
-LEVEL_TEXT = ("Machine-checked proof (Coq, 40 theorems in coq/props/C12.v, all closed under the global context) over an executable model "
+LEVEL_TEXT = ("Machine-checked proof (Coq, 42 theorems in coq/props/C12.v, all closed under the global context) over an executable model "
               "of MCSMatcher._search_subgraphs / _prune_graph / _prepare_orientation / find_common_subgraph / get_mappings (both copies of "
               "the matcher), for all pairs of graphs with distinct node ids: every returned mapping (both modes, all three directions, after "
               "orientation swap and wildcard pruning) is a function, injective, label-preserving, and preserves presence AND order of every "
@@ -77,13 +77,14 @@ LEVEL_TEXT = ("Machine-checked proof (Coq, 40 theorems in coq/props/C12.v, all c
               "attribute selection on the raw dictionaries incl. values float() rejects, cache with the unknown-direction state, ITS facade): "
               "C12_history_independent (a search never looks at the cache), C12_history_valid (the property after ANY history of calls on one "
               "object), C12_reads_inverse, C12_state_unknown, C12_facade_sides, C12_history_component_valid, C12_ctor_normalised, C12_raw_matchers, "
-              "C12_raw_meaning. Model and code are compared on every run (ordered lists, sizes, subset counts, every read of every history).")
+              "C12_raw_meaning; C12_search_trace (per GraphMatcher object: k-subset and number of isomorphisms, compared with the instrumented "
+              "implementation on every plain search). Model and code are compared on every run (ordered lists, sizes, subset counts, every read of every history).")
 LEVEL_NOTE = ("Trusted: Coq kernel + vm_compute; the hand-written model and encoders; networkx VF2 returns, for every k-subset, the same set of "
               "induced sub-graph isomorphisms as the verified enumerator (C12_vf2_premise states that nothing else about VF2 matters; "
               "monitored: ordered result lists compared on every case); in component-wise mode with pruning the node order of networkx's pruned copy "
               "(Python-set order when fewer than half of the atoms survive) is an input of the model. Not modelled, oracle only: "
               "the representative kept by prune_automorphisms and the isomorphism chosen inside a matched pair of mcs_mol (VF2's first result; the "
-              "order-independent parts of both modes are modelled). Not proved (compared only): last_size in all-sizes mode. "
+              "order-independent parts of both modes are modelled). last_size in all-sizes mode = size of the smallest returned mapping (C12_last_size_all_sizes). "
               "Histories on reused matcher objects (Matcher copy) run through the state-machine model (h_play); MTG histories are compared "
               "step by step with the pure model. its_decompose is external (the four sides are inputs of the model).")
 TECHNIQUE = ("Coq proof about a structure-following Gallina model (loop invariants of the size-descending search, refinement to the "
@@ -106,6 +107,7 @@ def _wc(case):
 
 class _Count:
     n = 0
+    trace = []        # round 5: per GraphMatcher object whose subgraph_isomorphisms_iter() was exhausted: [pattern subset, #yields]
 
 
 def _patched(modname):
@@ -121,6 +123,13 @@ def _patched(modname):
             def __init__(self, *a, **k):
                 _Count.n += 1
                 super().__init__(*a, **k)
+
+            def subgraph_isomorphisms_iter(self):
+                n = 0
+                for m in super().subgraph_isomorphisms_iter():
+                    n += 1
+                    yield m
+                _Count.trace.append([S(sorted(int(x) for x in self.G2.nodes)), n])
         mod.GraphMatcher = CountingGM
     return mod
 
@@ -160,7 +169,7 @@ def _wc_kw(case):
 
 def _run(case):
     g1, g2 = G.to_nx(case["g1"]), G.to_nx(case["g2"])
-    _Count.n = 0
+    _Count.n, _Count.trace = 0, []
     if case["variant"] == "matcher":
         mod = _patched("synkit.Graph.Matcher.mcs_matcher")
         na, nd, ea = _ctor_args(case)
@@ -263,10 +272,12 @@ def _obs(M, cnt, variant, case=None):
         # which representative survives is VF2's choice; compared: orientation, size, subsets tried and the SET of host node sets
         # (one survivor per host set: a duplicate host set would show up twice here and break the comparison with the model)
         return [M._last_pattern_is_G1, M.last_size, cnt, S([sorted(int(v) for v in m.values()) for m in M.get_mappings()])]
+    plain = case is None or (not case.get("mode") and not case.get("prune_auto"))
+    tr = [list(_Count.trace)] if plain else []     # the k-subsets tried, in order, with the number of isomorphisms VF2 yielded
     if variant == "matcher":
         return [M._last_pattern_is_G1, M.last_size, cnt, _dicts(M.get_mappings()), _dicts(M.get_mappings("G1_to_G2")),
-                _dicts(M.get_mappings("G2_to_G1"))]
-    return [M.last_size, cnt, _dicts(M.get_mappings())]
+                _dicts(M.get_mappings("G2_to_G1"))] + tr
+    return [M.last_size, cnt, _dicts(M.get_mappings())] + tr
 
 
 def _ctor_impl(c):
@@ -465,7 +476,7 @@ def _run_history(case):
         if st.get("call") == "rc_side":
             # the ITS facade: find_rc_mapping(its1, its2, side=r|l|op); st["g1"], st["g2"] are the sides it must compare
             its1, its2 = G.to_nx(st["its1"]), G.to_nx(st["its2"])
-            _Count.n = 0
+            _Count.n, _Count.trace = 0, []
             if variant == "mtg":
                 r = M.find_rc_mapping(its1, its2, mcs=st["mcs"])        # MTG copy: always right side of rc1 vs left side of rc2
                 assert r is None
@@ -490,7 +501,7 @@ def _run_history(case):
                 X = G.to_nx(st[side])
             objs[(k, side)] = X
             gs.append(X)
-        _Count.n = 0
+        _Count.n, _Count.trace = 0, []
         call = st.get("call", "fcs")
         if variant == "mtg":
             M.find_common_subgraph(gs[0], gs[1], mcs=st["mcs"])
@@ -572,8 +583,8 @@ def _nx_prune_order(g, case):
     G.subgraph(keep).copy().  networkx (FilterAtlas.__iter__) iterates that view in the order of the Python set `set(keep)`
     when 2*len(keep) < len(G) and in insertion order otherwise; this external order is an INPUT of the model: the graph is
     handed to the model with its kept nodes listed in that order (everything else about the case is unchanged)."""
-    if case.get("mode") not in ("component", "mcs_mol") or not case.get("prune_wc"):
-        return g
+    if not case.get("prune_wc") or case.get("variant", "matcher") != "matcher":
+        return g            # (round 5: also in plain mode -- the order of the k-subsets in the trace is the node order of the pruned copy)
     keep = [n for n, a in g["nodes"] if a.get(_ek(case)) != _wc(case)]
     if 2 * len(keep) >= len(g["nodes"]):
         return g
@@ -839,9 +850,9 @@ def coq_case(case):
             return "run_matcher_auto_with %s %s %s %s %s %s %s" % (defs, cbool(case.get("prune_wc", False)), cN(I(_wc(case))), g1, g2,
                                                                cbool(case["mcs"]), ch)
         return "%s %s %s %s %s %s %s" % ("run_component" if case.get("mode") == "component" else
-                                         "run_matcher_auto" if case.get("prune_auto") else "run_matcher", defs, cbool(case.get("prune_wc", False)), cN(I(_wc(case))), g1, g2,
+                                         "run_matcher_auto" if case.get("prune_auto") else "run_matcher_tr", defs, cbool(case.get("prune_wc", False)), cN(I(_wc(case))), g1, g2,
                                                   cbool(case["mcs"]))
-    return "run_mtg %s %s %s %s" % (defs, g1, g2, cbool(case["mcs"]))
+    return "run_mtg_tr %s %s %s %s" % (defs, g1, g2, cbool(case["mcs"]))
 
 
 # ------------------------------------------------------------------ property oracle (independent brute force)
